@@ -30,6 +30,10 @@ type c08Scenario struct {
 	// SkipVerify: the client under test does not verify certificates (InsecureSkipVerify); the legal
 	// message orders are the same
 	SkipVerify bool `json:"skipverify,omitempty"`
+	// EncLeaf (server under test): the scripted client's Certificate message lists its encryption
+	// certificate (key usage without digitalSignature) first, and its CertificateVerify is made with
+	// that certificate's key; the legal orders are the same - a certificate was sent, so a proof is due
+	EncLeaf bool `json:"encleaf,omitempty"`
 }
 
 type c08Case struct {
@@ -230,8 +234,8 @@ func c08Run(c c08Case) (outcome, sig, msg string) {
 		} else if outcome == "alive" && want == "fail" {
 			kind = "illegal-prefix-not-rejected"
 		}
-		return outcome, kind + ":" + role, fmt.Sprintf("%s under test, suite %x resumed=%v certreq=%v packed=%v, sequence [%s]: observed %s, the standard's language says %s (endpoint error: %v; peer: %v)",
-			role, c.Sc.Suite, c.Sc.Resumed, c.Sc.CertReq, c.Sc.Packed, strings.Join(c.Seq, " "), outcome, want, r.UErr, r.PErr)
+		return outcome, kind + ":" + role, fmt.Sprintf("%s under test, suite %x resumed=%v certreq=%v policy=%d encleaf=%v packed=%v, sequence [%s]: observed %s, the standard's language says %s (endpoint error: %v; peer: %v)",
+			role, c.Sc.Suite, c.Sc.Resumed, c.Sc.CertReq, c.Sc.Policy, c.Sc.EncLeaf, c.Sc.Packed, strings.Join(c.Seq, " "), outcome, want, r.UErr, r.PErr)
 	}
 	return outcome, "", ""
 }
@@ -423,6 +427,10 @@ func c08ClientPeer(pc *Conn, c c08Case, w *c08World, p *vfPKI) error {
 		isHS := true
 		switch sym {
 		case "Cert":
+			if c.Sc.EncLeaf {
+				err = pk.hs(&certificateMsg{certificates: [][]byte{p.CliEnc.Certificate[0], p.CliEnc.Certificate[0]}}, &hs.finishedHash)
+				break
+			}
 			err = pk.hs(&certificateMsg{certificates: [][]byte{p.CliSig.Certificate[0], p.CliEnc.Certificate[0]}}, &hs.finishedHash)
 		case "CKE":
 			if cp.ckx != nil {
@@ -433,7 +441,11 @@ func c08ClientPeer(pc *Conn, c c08Case, w *c08World, p *vfPKI) error {
 		case "CV":
 			sigType, newHash, _ := typeAndHashFrom(hs.suite.id)
 			var sg []byte
-			if sg, err = signHandshake(pc, sigType, p.CliSig.PrivateKey.(*sm2.PrivateKey), newHash, hs.finishedHash.Sum()); err == nil {
+			cvKey := p.CliSig.PrivateKey.(*sm2.PrivateKey)
+			if c.Sc.EncLeaf {
+				cvKey = p.CliEnc.PrivateKey.(*sm2.PrivateKey)
+			}
+			if sg, err = signHandshake(pc, sigType, cvKey, newHash, hs.finishedHash.Sum()); err == nil {
 				err = pk.hs(&certificateVerifyMsg{signature: sg}, &hs.finishedHash)
 			}
 		case "Fin":
@@ -532,6 +544,9 @@ func c08Scenarios() []c08Scenario {
 						// optional policies: the Certificate message is still mandatory once requested
 						out = append(out, c08Scenario{Suite: s, CertReq: true, Policy: int(RequestClientCert), Packed: packed})
 						out = append(out, c08Scenario{Suite: s, CertReq: true, Policy: int(VerifyClientCertIfGiven), Packed: packed})
+						// the certificate the client lists first is not a signing certificate (seeded change C08-m17)
+						out = append(out, c08Scenario{Suite: s, CertReq: true, Policy: int(RequireAnyClientCert), Packed: packed, EncLeaf: true})
+						out = append(out, c08Scenario{Suite: s, CertReq: true, Packed: packed, EncLeaf: true})
 					}
 				}
 			}
@@ -541,7 +556,7 @@ func c08Scenarios() []c08Scenario {
 }
 
 func TestVF_C08(t *testing.T) {
-	rec := vfRec("C08", "C08-orders", "prefix-closed enumeration of symbol sequences (own-role and foreign handshake message kinds, ChangeCipherSpec, warning alert, application data; handshake messages one per record or packed into one record) sent by a scripted peer with consistent transcript/keys, extended only while the endpoint under test is still waiting; roles client/server x ECC/ECDHE x full/resumed x certificate requested or not x (client) verifying or not; at most two warning alerts per sequence plus the 16/17 boundary; oracle: complete / waiting / error exactly as the standard's message-order language says; non-trivial = sequence is not the legal flow; distinct = (scenario, sequence)")
+	rec := vfRec("C08", "C08-orders", "prefix-closed enumeration of symbol sequences (own-role and foreign handshake message kinds, ChangeCipherSpec, warning alert, application data; handshake messages one per record or packed into one record) sent by a scripted peer with consistent transcript/keys, extended only while the endpoint under test is still waiting; roles client/server x ECC/ECDHE x full/resumed x certificate requested or not x (client) verifying or not x (server) the client lists its signing or its encipherment-only certificate first; at most two warning alerts per sequence plus the 16/17 boundary; oracle: complete / waiting / error exactly as the standard's message-order language says; non-trivial = sequence is not the legal flow; distinct = (scenario, sequence)")
 	scs := c08Scenarios()
 	idx := 0
 	total := 0
